@@ -70,7 +70,7 @@ class CHECK(Check):
             yield {"regdefs": regdefs, "content": content, "kind": "random"}
 
     def impl(self, case):
-        regs = [reglib.mk_register_class(rd, i) for i, rd in enumerate(case["regdefs"])]
+        regs = reglib.mk_register_classes(case["regdefs"])
         F = reglib.mk_file_class(regs)
         import os, hashlib
         arg = case["content"]
